@@ -5,6 +5,7 @@
 package srv
 
 import (
+	"os"
 	"bufio"
 	"bytes"
 	"crypto/tls"
@@ -106,6 +107,7 @@ type Conn struct {
 	Enc   bool
 	// ClearBytes holds every byte received outside TLS (for C04)
 	wmu sync.Mutex
+	cork  *corkConn
 }
 
 func NewConn(c net.Conn) *Conn {
@@ -157,10 +159,67 @@ func (c *Conn) CloseWrite() {
 	c.C.Close()
 }
 
+// corkConn sits between the TLS layer and the socket: while corked, what TLS writes is held back, so that several
+// records (the last stanzas and the close_notify alert) can leave in ONE segment and reach the peer in one read.
+type corkConn struct {
+	net.Conn
+	mu     sync.Mutex
+	corked bool
+	buf    []byte
+}
+
+func (c *corkConn) Write(p []byte) (int, error) {
+	c.mu.Lock()
+	if c.corked {
+		c.buf = append(c.buf, p...)
+		c.mu.Unlock()
+		return len(p), nil
+	}
+	c.mu.Unlock()
+	return c.Conn.Write(p)
+}
+
+func (c *corkConn) Close() error {
+	c.mu.Lock()
+	b := c.buf
+	c.buf, c.corked = nil, false
+	c.mu.Unlock()
+	if len(b) > 0 {
+		c.Conn.SetWriteDeadline(time.Now().Add(5 * time.Second))
+		if _, err := c.Conn.Write(b); err != nil && os.Getenv("VERIF_DEBUG") != "" {
+			fmt.Fprintln(os.Stderr, "cork flush:", len(b), err)
+		}
+	}
+	return c.Conn.Close()
+}
+
+// WriteAndCloseInOneSegment (TLS only) writes s and closes the TLS connection so that the data and the close_notify
+// alert leave the socket in a single write.
+func (c *Conn) WriteAndCloseInOneSegment(s string) error {
+	if c.cork == nil {
+		return errors.New("srv: connection is not corkable (no TLS)")
+	}
+	c.cork.mu.Lock()
+	c.cork.corked = true
+	c.cork.mu.Unlock()
+	if s != "" {
+		if _, err := c.C.Write([]byte(s)); err != nil {
+			return err
+		}
+	}
+	return c.C.Close() // close_notify goes into the cork, corkConn.Close flushes everything at once
+}
+
 // StartTLS upgrades the connection with the given certificate. Stream state restarts.
 func (c *Conn) StartTLS(cert tls.Certificate, timeout time.Duration) error {
+	return c.StartTLSMax(cert, 0, timeout)
+}
+
+// StartTLSMax is StartTLS with an upper bound on the protocol version (0 = none).
+func (c *Conn) StartTLSMax(cert tls.Certificate, max uint16, timeout time.Duration) error {
 	// bytes already buffered belong to the clear text phase; none are expected
-	tc := tls.Server(c.Raw, &tls.Config{Certificates: []tls.Certificate{cert}, MinVersion: tls.VersionTLS12})
+	c.cork = &corkConn{Conn: c.Raw}
+	tc := tls.Server(c.cork, &tls.Config{Certificates: []tls.Certificate{cert}, MinVersion: tls.VersionTLS12, MaxVersion: max})
 	c.Raw.SetDeadline(time.Now().Add(timeout))
 	err := tc.Handshake()
 	c.Raw.SetDeadline(time.Time{})
@@ -414,6 +473,9 @@ type NegotiateOpts struct {
 	// Resumable: accept <resume previd=SMID/> with <resumed/>
 	AcceptResume bool
 	ResumedH     int // the h the server reports in <resumed/>
+	// TLSCert != nil: STARTTLS is offered as required and negotiated first (protocol version at most TLSMax, 0 = any)
+	TLSCert *tls.Certificate
+	TLSMax  uint16
 }
 
 type NegotiateResult struct {
@@ -442,6 +504,23 @@ func (c *Conn) Negotiate(o NegotiateOpts, timeout time.Duration) (*NegotiateResu
 	}
 	if _, err := exp("open", ""); err != nil {
 		return res, err
+	}
+	if o.TLSCert != nil {
+		if err := c.Write(StreamHeader(o.StreamID+"t") + Features(FeatStartTLSR+FeatMechPlain)); err != nil {
+			return res, err
+		}
+		if _, err := exp("elem", "starttls"); err != nil {
+			return res, err
+		}
+		if err := c.Write("<proceed xmlns='" + NSTLS + "'/>"); err != nil {
+			return res, err
+		}
+		if err := c.StartTLSMax(*o.TLSCert, o.TLSMax, timeout); err != nil {
+			return res, fmt.Errorf("negotiate: TLS handshake: %w", err)
+		}
+		if _, err := exp("open", ""); err != nil {
+			return res, err
+		}
 	}
 	if err := c.Write(StreamHeader(o.StreamID) + Features(FeatMechPlain)); err != nil {
 		return res, err
